@@ -1,4 +1,5 @@
 import GV.Drv.Orch
+import GV.Drv.KC
 open Lean GV.Drv
 
 def handle (line : String) : String :=
@@ -7,6 +8,7 @@ def handle (line : String) : String :=
   | .ok j =>
     match jStr j "scn" with
     | "orch" => (orchCase j).compress
+    | "kc" => (kcCase j).compress
     | s => (Json.mkObj [("i", jObj j "i"), ("error", Json.str s!"unknown scenario {s}")]).compress
 
 partial def loop (h : IO.FS.Stream) (out : IO.FS.Stream) : IO Unit := do
